@@ -471,6 +471,8 @@ func crossGenFiles() map[string]string {
 		// history probes (C02/C06/C13): a profile that appends to built-in tunables, then one that uses them
 		"aa-vgen-hist-append": pre("aa-vgen-hist-append", "@{lib} += /opt/vendor/lib\n@{bin} += /opt/vendor/bin\n@{exec_path} = @{bin}/aa-vgen-hist-append\n", "@{exec_path} ", "  /etc/hist r,\n"),
 		"zz-vgen-hist-uselib": pre("zz-vgen-hist-uselib", "@{exec_path} = @{lib}/zz-vgen-hist-uselib @{bin}/zz2-vgen\n", "@{exec_path} ", "  /etc/hist r,\n"),
+		// the same value twice in @{exec_path} (by = and by +=) next to distinct ones
+		"aa-vgen-hist-dupval": pre("aa-vgen-hist-dupval", "@{exec_path} = @{bin}/aa-vgen-hist-dupval @{lib}/dupval/dupval\n@{exec_path} += @{lib}/dupval/dupval @{lib}/@{multiarch}/dupval /opt/dupval/bin/dupval\n", "@{exec_path} ", "  /etc/hist r,\n"),
 		// two profiles with textually identical definitions over different local variables
 		"aa-vgen-hist-name1": pre("aa-vgen-hist-name1", "@{name} = alpha\n@{lib_dirs} = /opt/@{name}\n@{exec_path} = @{lib_dirs}/@{name}\n", "@{exec_path} ", "  /etc/hist r,\n"),
 		"zz-vgen-hist-name2": pre("zz-vgen-hist-name2", "@{name} = beta\n@{lib_dirs} = /opt/@{name}\n@{exec_path} = @{lib_dirs}/@{name}\n", "@{exec_path} ", "  /etc/hist r,\n"),
